@@ -64,7 +64,8 @@ PROPS = {
                      {"name": "tsan-mixed", "flavour": "tsan", "driver": "drv_conc", "args": ["--mode", "mixed"], "shards": 8, "timeout": {"quick": 150, "thorough": 1800}, "stop_after_crashes": 3},
                      {"name": "tsan-directed", "flavour": "tsan", "driver": "drv_conc", "args": ["--mode", "directed"], "shards": 16, "timeout": {"quick": 150, "thorough": 1800}, "stop_after_crashes": 3},
                      {"name": "asan-directed", "flavour": "asan", "driver": "drv_conc", "args": ["--mode", "directed"], "shards": 8, "timeout": {"quick": 150, "thorough": 1800}, "stop_after_crashes": 3},
-                     {"name": "asan-own", "flavour": "asan", "driver": "drv_conc", "args": ["--mode", "own"], "shards": 4, "timeout": {"quick": 150, "thorough": 1800}, "stop_after_crashes": 3}]},
+                     {"name": "asan-own", "flavour": "asan", "driver": "drv_conc", "args": ["--mode", "own"], "shards": 4, "timeout": {"quick": 150, "thorough": 1800}, "stop_after_crashes": 3},
+                     {"name": "asan-probe", "flavour": "asan", "driver": "drv_conc", "args": ["--mode", "probe"], "shards": 4, "timeout": {"quick": 150, "thorough": 1800}, "stop_after_crashes": 3}]},
     "C15": {"level": "exploration", "assumptions": TRUST + ["page protection detects stray writes anywhere in an input and reads outside it only up to the adjacent guard page"],
             "rule": "case = (config, length): data and every input fragment / index list placed in its own mapping, read-only during the call, end-pinned or start-pinned against a PROT_NONE page (or 16-aligned with <=15 bytes slack); "
                     "encode, decode (with data loss, shuffled, duplicates), reconstruct (erased and available destination), get_fragment_metadata, is_invalid_fragment, verify_stripe_metadata, fragments_needed all run that way; encode output must equal the reference serializer and the first encode "
@@ -180,3 +181,29 @@ PROPS["C15"]["rule"] += MEMCHECK_NOTE
 
 for _p, _n in {"C05": 3, "C07": 8, "C08": 3, "C09": 10, "C10": 10, "C11": 12, "C12": 12, "C13": 6, "C15": 5, "C16": 3, "C17": 10, "C18": 8, "C20": 16, "C02": 2}.items():
     PROPS[_p]["thorough_seeds"] = _n
+
+# workload parts added by the seeded waves l and m (DESIGN 4.2); appended to the rule texts so that MANIFEST and evidence name them
+_POP = ("; instance populations: every history of 5 (thorough 6) creates (twins included) / destroys (oldest, newest, middle) over a small pool of shapes, then random "
+        "ones of 28-48 steps, every live instance used after every step (encode vs model, decodes, reconstructs, payload damage queried)")
+_ADDED = {
+    "C01": _POP + "; the first instances of a backend created on three threads at once (barrier), each used and one's stripe read through another",
+    "C02": "; lists with one index supplied 255/256/257/512/65536 times; a stripe of eleven words per fragment in every configuration",
+    "C03": "",
+    "C04": _POP + " (pool with an m = 0 shape); the first rs_vand instances of the process created on three threads at once and compared with the closed form",
+    "C05": "; payloads of 64 KiB and 128 KiB (thorough 256 KiB, 1 MiB) on every table: parity rebuilt while a data fragment of its equation is lost",
+    "C07": "; one fragment per encode rebuilt from the rest into a recycled 16-aligned buffer and compared with the serializer",
+    "C08": "; queries (no encode) at 2^21..2^30 +-1, random lengths in [2^29, 2^31-A) and the largest length whose answer fits the returned int",
+    "C09": "; every third mutant is also queried with the fragment's own header as output struct: same verdict, a refused query leaves every byte alone",
+    "C10": _POP + " (mixed checksum types); every judged fragment is also validated through an instance of the same shape created with the other checksum type",
+    "C11": "; twin pairs under writer stamps 0.9.3..1.1.255 with size fields 2^27..2^32-1",
+    "C12": "; reconstruct with the destination supplied as well, output buffer pre-filled",
+    "C14": _POP + " (mixed backends); 300 live rs_vand instances plus 66000 further users of the shared tables (thorough: real instances), then create / destroy / use",
+    "C15": "; lists holding a sealed fragment of another layout of the same object (smaller k, larger payload), every fragment end-pinned against a guard page: no read behind fragment_len",
+    "C16": "; every other encode of a history edits the returned fragments in place (magic cleared, fragment overwritten) before cleanup; allocation-failure enumeration also over encode with output variables still holding blocks of the caller and over P-xor-Q reconstructs",
+    "C17": "; scripts lose as much as the code tolerates (pool has (4,28), (1,31), (2,30)) and decode with forced checks while a payload-damaged fragment is in the list",
+    "C18": "; probe mode (ASan): one thread's creates fail in the backend's init while another calls encode and size queries with the descriptor numbers handed out next - never accepted",
+    "C19": _POP + " (ISA-L shapes)",
+    "C20": "; out-of-range indexes with high bits set (own index | 2^31, + 2^8, + 2^16, near 2^31 and 2^32)",
+}
+for _p, _t in _ADDED.items():
+    PROPS[_p]["rule"] += _t
